@@ -16,6 +16,7 @@ import time
 from vlib import core
 
 LANGS = ["go", "java", "jsonschema", "openapi", "php", "python", "typescript"]
+LANGLOOP_SITE = "codegen.(*Pipeline).Run/range targetsByLanguage"
 
 
 def java_tmp(ctx):
@@ -807,3 +808,36 @@ def constref_entry(base, name="constref"):
 
 
 GROWTH_ENTRIES["constref"] = constref_entry
+
+
+def nested_defaults_entry(base, name="nesteddefaults", langs=None):
+    """Struct-valued defaults nested three levels deep with >= 2 keys at EVERY level (a default that overrides a struct-typed
+    field whose value again overrides a struct-typed field ...), set through fields_set_default and through CUE defaults."""
+    d = os.path.join(base, name)
+    os.makedirs(d)
+    strp = lambda: {"type": "string"}
+    doc = {"$schema": "http://json-schema.org/draft-07/schema#", "$ref": "#/definitions/Panel", "definitions": {
+        "Panel": {"type": "object", "properties": {"title": strp(), "fieldConfig": {"$ref": "#/definitions/FieldConfig"}, "other": {"$ref": "#/definitions/FieldConfig"}}},
+        "FieldConfig": {"type": "object", "properties": {"title": strp(), "unit": strp(), "thresholds": {"$ref": "#/definitions/Thresholds"}}},
+        "Thresholds": {"type": "object", "properties": {"mode": strp(), "color": strp(), "unit": strp(), "style": {"$ref": "#/definitions/Style"}}},
+        "Style": {"type": "object", "properties": {"width": {"type": "integer"}, "dash": strp(), "cap": strp()}}}}
+    _write(os.path.join(d, "alpha.schema.json"), json.dumps(doc, indent=1))
+    nested = {"title": "t", "unit": "u", "thresholds": {"mode": "absolute", "color": "red", "unit": "ms",
+                                                         "style": {"width": 2, "dash": "solid", "cap": "round"}}}
+    _write(os.path.join(d, "common.yaml"), yaml_dump({"passes": [
+        {"fields_set_default": {"defaults": {"alpha.Panel.fieldConfig": nested, "alpha.Panel.other": {"unit": "s", "title": "o", "thresholds": {"color": "blue", "mode": "pct"}}}}}]}))
+    _write(os.path.join(d, "cue_beta", "beta.cue"),
+           'package cue_beta\n\nStyle: {\n  width: int64 | *1\n  dash: string | *"none"\n}\nThresholds: {\n  mode: string\n  color: string\n  style: Style\n}\n'
+           'FieldConfig: {\n  title: string\n  unit: string\n  thresholds: Thresholds\n}\n'
+           'Panel: {\n  name: string\n  fieldConfig: FieldConfig | *{title: "t", unit: "u", thresholds: {mode: "abs", color: "red", style: {width: 3, dash: "dot"}}}\n}\n')
+    inputs = [{"jsonschema": {"path": "%__config_dir%/alpha.schema.json", "package": "alpha"}},
+              {"cue": {"entrypoint": "%__config_dir%/cue_beta", "package": "beta"}}]
+    # TypeScript panics on a struct default that overrides a struct-typed field (nil struct in defaultValueForStructs): C04's business
+    langs = list(langs or [l for l in LANGS if l != "typescript"])
+    y = write_pipeline(d, "pipeline", inputs, langs, types=True, builders=True, converters=False, api_reference=False,
+                       common_passes=["%__config_dir%/common.yaml"])
+    return {"id": name, "yaml": y, "inspect": True, "outdir": "out", "langs": langs, "pkgs": ["alpha", "beta"],
+            "features": {"pkgs": 1}, "flags": {}, "source": "nesteddefaults"}
+
+
+GROWTH_ENTRIES["nesteddefaults"] = nested_defaults_entry
